@@ -34,6 +34,12 @@ pub struct GenCfg {
     pub edge_ids: bool,
     /// probability (percent) that a build is cancelled at a small poll index (the round is then aborted)
     pub cancel_pct: u32,
+    /// one round (the first, or the second when there is one and the coin says so) additionally adds this many
+    /// consecutive ids of index 0's pool in one go: a first build or an incremental insertion of thousands of
+    /// dense ids (roaring containers beyond 4096 entries, tree nodes beyond 8 KiB)
+    pub bulk: Option<(usize, usize)>,
+    /// weights of the id-pool shapes: dense from 0, dense from a small offset (plus edge ids), random u32s
+    pub pool_weights: [u32; 3],
 }
 
 pub fn small_dims() -> Vec<(u32, Vec<usize>)> {
@@ -79,6 +85,8 @@ impl GenCfg {
             op_weights: [60, 30, 6, 1, 0],
             edge_ids: true,
             cancel_pct: 0,
+            bulk: None,
+            pool_weights: [6, 2, 1],
         }
     }
 
@@ -136,7 +144,8 @@ fn id_pool(cfg: &GenCfg) -> BoxedStrategy<Vec<u32>> {
         v.dedup();
         v
     });
-    prop_oneof![6 => dense, 2 => dense_edges, 1 => random].boxed()
+    let w = cfg.pool_weights;
+    prop_oneof![w[0] => dense, w[1] => dense_edges, w[2] => random].boxed()
 }
 
 fn index_spec(cfg: &GenCfg, index: u16) -> BoxedStrategy<IndexSpec> {
@@ -205,6 +214,26 @@ fn round(cfg: &GenCfg, n_ix: usize, first: bool) -> BoxedStrategy<Round> {
 }
 
 pub fn history(cfg: &GenCfg) -> BoxedStrategy<HistorySpec> {
+    match cfg.bulk {
+        None => history_plain(cfg),
+        Some((lo, hi)) => (history_plain(cfg), 0u8..4, lo..=hi, any::<u32>())
+            .prop_map(|(mut spec, later, count, vseed0)| {
+                let later = later > 0;
+                let n = spec.indexes[0].ids.len();
+                let count = count.min(n);
+                let r = if later && spec.rounds.len() > 1 { 1 } else { 0 };
+                // the smallest slot that id_of maps onto pool position i
+                let bulk: Vec<Op> =
+                    (0..count).map(|i| Op::Add { ix: 0, slot: ((i << 16).div_ceil(n)).min(65535) as u16, vseed: vseed0.wrapping_add(i as u32) }).collect();
+                let ops = std::mem::take(&mut spec.rounds[r].ops);
+                spec.rounds[r].ops = bulk.into_iter().chain(ops).collect();
+                spec
+            })
+            .boxed(),
+    }
+}
+
+fn history_plain(cfg: &GenCfg) -> BoxedStrategy<HistorySpec> {
     let cfg = cfg.clone();
     let n_ix = 1..=cfg.max_indexes;
     let cfg2 = cfg.clone();
